@@ -10,7 +10,7 @@ Mark(k) == TLCSet(42, IF TLCGet(42) > k THEN TLCGet(42) ELSE k)
 IsEvent(ev) == l <= Len(Trace) /\ Trace[l].ev = ev /\ l' = l + 1
 TInit == l = 1 /\ st = "idle" /\ TLCSet(42, 1)
 TCall == IsEvent("Call") /\ st = "idle" /\ st' = "called"
-TOther == l <= Len(Trace) /\ Trace[l].ev \notin {"Call", "Return"} /\ l' = l + 1 /\ st = "called" /\ st' = st
+TOther == l <= Len(Trace) /\ Trace[l].ev \notin {"Call", "Return"} /\ l' = l + 1 /\ st' = st
 Returned(e) == IF "crashed" \in DOMAIN e THEN e.crashed = <<>>
                ELSE IF "result" \in DOMAIN e THEN e.result \notin {"panic", "timeout", "hang"}
                ELSE IF "verdict" \in DOMAIN e THEN e.verdict \notin {"panic", "timeout", "hang"}
